@@ -70,6 +70,7 @@ mut("C09", "readprofile-no-recover", "meta/icc/profilereader.go", "\tdefer func(
 mut("C09", "revert-D4-wrap", "meta/icc/multilocalisedunicode.go", "if uint64(stringOffset)+uint64(stringLength) > uint64(len(data)) {", "if uint64(stringOffset+stringLength) > uint64(len(data)) {", "the pinned tree's defect D4")
 mut("C09", "png-iccp-make", "meta/pngmeta/pngmeta.go", "\t\t\tchunkData := &bytes.Buffer{}\n\t\t\t_, err = io.CopyN(chunkData, r, int64(ch.Length-offset))\n\t\t\tif err == io.EOF {", "\t\t\tchunkData := bytes.NewBuffer(make([]byte, 0, ch.Length-offset))\n\t\t\t_, err = io.CopyN(chunkData, r, int64(ch.Length-offset))\n\t\t\tif err == io.EOF {", "allocation sized by the declared length (D3 class)")
 mut("C09", "textdesc-no-zero-guard", "meta/icc/textdescription.go", "\tif asciiCount == 0 {\n\t\treturn desc, nil\n\t}\n", "", "count-1 underflow (D3 class)")
+mut("C09", "skip-inclusive-bound", "meta/webpmeta/webpmeta.go", "\tfor i := uint32(0); i < length; i++ {\n\t\t_, err := r.ReadByte()", "\tfor i := uint32(1); i <= length; i++ {\n\t\t_, err := r.ReadByte()", "never ends for length = 2^32-1")
 mut("C09", "skip-by-recursion", "meta/webpmeta/webpmeta.go", "\tfor i := uint32(0); i < length; i++ {\n\t\t_, err := r.ReadByte()\n\t\tif err != nil {\n\t\t\treturn err\n\t\t}\n\t}\n\treturn nil", "\tif length == 0 {\n\t\treturn nil\n\t}\n\tif _, err := r.ReadByte(); err != nil {\n\t\treturn err\n\t}\n\treturn skip(r, length-1)", "one stack frame per skipped byte")
 mut("C09", "skip-ignores-error", "meta/webpmeta/webpmeta.go", "\tfor i := uint32(0); i < length; i++ {\n\t\t_, err := r.ReadByte()\n\t\tif err != nil {\n\t\t\treturn err\n\t\t}\n\t}\n\treturn nil", "\tfor i := uint32(0); i < length; i++ {\n\t\t_, _ = r.ReadByte()\n\t}\n\treturn nil")
 # ---- C10
